@@ -23,6 +23,9 @@ def units(tier, seed):
     out += _g.dag_units("wdag", 4, 8)
     if tier == "thorough":
         out += [{"stage": "pdag", "p": 5, "codes": c, "light": True} for c in split_list(_g.sparse_codes(5, 5, (1, 2, 3)), 64)]
+    # wide graphs (p = 10, node indices >= 8): every PDAG with <= 2 edges and targeted colliders
+    out += [{"stage": "pdag", "p": _g.WIDE_P, "codes": c, "light": True} for c in split_list(_g.wide_sparse_codes("pdag"), 32)]
+    out.append({"stage": "wide-targeted"})
     return out
 
 
@@ -48,6 +51,8 @@ def check_graph(p, ch, und, A, sep_mode):
         elif asset(got[1]) != set(want):
             fails.append((name, "%s%s on %s = %s, definition gives %s" % (name, args, Al, sorted(asset(got[1])), sorted(want))))
 
+    # wide graphs (p > 5): pair-indexed functions only over the nodes that carry an edge (plus node 0)
+    pair_nodes = list(range(p)) if p <= 5 else sorted(set([0] + [i for i in range(p) if adjm[i]]))
     for i in range(p):
         cmp_set("pa", _g.call(U.pa, i, A), G.bits(pa[i]), (i,))
         cmp_set("ch", _g.call(U.ch, i, A), G.bits(ch[i]), (i,))
@@ -58,7 +63,7 @@ def check_graph(p, ch, und, A, sep_mode):
         cmp_set("descendants", _g.call(U.descendants, i, A), G.bits(strict[i] | 1 << i), (i,))
         cmp_set("desc", _g.call(U.desc, i, A), G.bits(strict[i] | 1 << i), (i,))
         cmp_set("chain_component", _g.call(U.chain_component, i, A), G.chain_component(p, und, i), (i,))
-        for j in range(p):
+        for j in (pair_nodes if i in pair_nodes else ()):
             cmp_set("na", _g.call(U.na, i, j, A), G.bits(und[i] & adjm[j]), (i, j))
     # transitive closure
     r = _g.call(U.transitive_closure, A.copy())
@@ -74,8 +79,8 @@ def check_graph(p, ch, und, A, sep_mode):
             fails.append(("transitive_closure", "transitive_closure(%s) = %s, reachability is %s" % (Al, np.asarray(r[1]).tolist(), want)))
     # semi-directed paths
     allpaths = {}
-    for a in range(p):
-        for b in range(p):
+    for a in pair_nodes:
+        for b in pair_nodes:
             want = sorted(G.semi_directed_paths(p, ch, und, a, b))
             allpaths[(a, b)] = want
             r = _g.call(U.semi_directed_paths, a, b, A)
@@ -96,6 +101,19 @@ def check_graph(p, ch, und, A, sep_mode):
         assigns = itertools.product(range(8), repeat=p)
     elif sep_mode == "disjoint":
         assigns = itertools.product((0, 1, 2, 4), repeat=p)
+    elif sep_mode == "single" and p > 5:   # wide graphs: A, B singletons among the nodes that have an edge (+ node 0), S empty or a singleton
+        act = sorted(set([0] + [i for i in range(p) if adjm[i]]))[:5]
+        assigns = []
+        for a_ in act:
+            for b_ in act:
+                if a_ == b_:
+                    continue
+                for s_ in [None] + [x for x in act if x not in (a_, b_)]:
+                    t = [0] * p
+                    t[a_], t[b_] = 2, 4
+                    if s_ is not None:
+                        t[s_] = 1
+                    assigns.append(tuple(t))
     elif sep_mode == "single":         # A and B singletons, every S
         assigns = (a for a in itertools.product((0, 1, 2, 4), repeat=p) if a.count(2) == 1 and a.count(4) == 1)
     else:
@@ -152,17 +170,38 @@ def prepare(tier, seed):
 
 def run_unit(unit):
     acc = Acc()
+    if unit["stage"] == "wide-targeted":
+        p = _g.WIDE_P
+        for k, ch in enumerate(_g.wide_targeted()):
+            for lab in ("binint", "generic", "signs:5"):
+                A = _g.np_dag(p, ch, lab)
+                fails, n = check_graph(p, ch, [0] * p, A, "single")
+                acc.states += 1
+                acc.transitions += n
+                acc.traces += 1
+                acc.nontrivial += 1
+                acc.extra["wide_targeted"] += 1
+                acc.outcome(["wide", k, lab])
+                for sig, msg in fails:
+                    acc.fail("wide", {"k": k, "lab": lab}, sig, msg)
+        return acc.out()
     p = unit["p"]
     labs = ("pdag",) if unit["stage"] == "pdag" else ("neg", "cancel", "generic", "int")
     codes = unit["codes"] if "codes" in unit else range(unit["lo"], unit["hi"])
     mode = sep_mode_for(p, _TIER[0], unit.get("light"))
     for code in codes:
-        for lab in labs:
+        labs_here = labs
+        if unit["stage"] == "wdag" and p <= 4:
+            ch0, und0 = G.decode(p, code)
+            if not any(und0):
+                labs_here = labs + tuple(_g.sign_labs(p, ch0))
+        for lab in labs_here:
             b = build(p, code, lab)
             if b is None:
                 continue
             ch, und, A = b
-            fails, n = check_graph(p, ch, und, A, mode)
+            mode_here = "none" if lab.startswith("signs:") and p >= 4 else mode      # separates under sign labelings only for p <= 3
+            fails, n = check_graph(p, ch, und, A, mode_here)
             acc.states += 1
             acc.transitions += n
             acc.traces += 1
@@ -173,11 +212,14 @@ def run_unit(unit):
             if any(und) and any(ch) and len(acc.samples) < 1 and acc.states > 10:
                 acc.sample({"graph": A.tolist(), "calls_compared": n, "separates_mode": mode})
             for sig, msg in fails:
-                acc.fail("graph", {"p": p, "code": code, "lab": lab, "sep": mode}, sig, msg)
+                acc.fail("graph", {"p": p, "code": code, "lab": lab, "sep": mode_here}, sig, msg)
     return acc.out()
 
 
 def replay(kind, case):
+    if kind == "wide":
+        ch = _g.wide_targeted()[case["k"]]
+        return check_graph(_g.WIDE_P, ch, [0] * _g.WIDE_P, _g.np_dag(_g.WIDE_P, ch, case["lab"]), "single")[0]
     b = build(case["p"], case["code"], case["lab"])
     if b is None:
         return []
@@ -187,8 +229,8 @@ def replay(kind, case):
 def describe(tier, seed):
     return {
         "technique": "exhaustive small-scope enumeration of PDAGs, nodes, node pairs and node-set triples on the real code vs bitset/recursive oracles",
-        "rule": "every PDAG with acyclic directed part p<=4 (binary) and every DAG p<=4 under neg/cancel/generic/int weights (thorough: + 5-node PDAGs "
-                "with <=5 edges); per graph: pa, ch, neighbors, adj, ancestors, an, descendants, desc, chain_component for every node, na and "
+        "rule": "every PDAG with acyclic directed part p<=4 (binary) and every DAG p<=4 under neg/cancel/generic/int weights and every +-1 sign assignment (thorough: + 5-node PDAGs "
+                "with <=5 edges); wide graphs: every 10-node PDAG with <=2 edges and 80 targeted colliders mixing node indices below and above 8; per graph: pa, ch, neighbors, adj, ancestors, an, descendants, desc, chain_component for every node, na and "
                 "semi_directed_paths for every ordered pair, transitive_closure (ValueError iff undirected edges), separates for every assignment "
                 "of the nodes to subsets of {S,A,B} (p<=3, overlapping => ValueError), every disjoint (S,A,B) with singleton A,B at p=4 (quick) / "
                 "every disjoint triple (thorough); non-trivial: >= 2 edges",
